@@ -127,6 +127,11 @@ def apply_edit(tree, e, data):
     Raises NotApplicable when the edit is outside the grammar here; any other exception comes from phyclone."""
     if not applicable(tree, e, data):
         raise NotApplicable(repr(e))
+    return apply_edit_raw(tree, e, data)
+
+
+def apply_edit_raw(tree, e, data):
+    """apply_edit without the grammar's side conditions (used to compare WHERE the code raises with the model's None)"""
     op = e[0]
     if op == "NewClone":
         tree.create_root_node(children=[node_of(tree, h) for h in e[1]], data=[data[i] for i in e[2]])
@@ -599,10 +604,44 @@ def coq_case_item(case):
         except Exception:
             obs.append("None")
             break
+    hist = list(hist)
+    bad = bad_edit(case["seed"], tree, data) if obs and obs[-1] != "None" else None
+    if bad is not None:
+        # one edit OUTSIDE the grammar at the end: the model must return None exactly if the code raises
+        hist.append(bad)
+        try:
+            t2 = apply_edit_raw(tree.copy(), bad, data)
+            safe_abs(t2)
+            obs.append("Some " + coq_obs(t2))
+        except Exception:
+            obs.append("None")
     item = "match build %d %d %s %s with Some t0 => chk_tree t0 %s && hcheck %d %d [%s] [%s] (resync (o_names %s) t0) | None => false end" % (
         case["ns"], case["grid"], coq_spec_nodes(spec[0]), dps(spec[1]), start, case["ns"], case["grid"],
         "; ".join(coq_hedit(e) for e in hist), "; ".join(obs), start)
     return item
+
+
+def bad_edit(seed, tree, data):
+    """an edit the code is expected to reject: a data point that is already there, a child that is not a root, a repeated child"""
+    import random
+
+    rng = random.Random(seed + 17)
+    lab = tree.labels
+    hm = handle_map(tree)
+    unused = sorted(set(range(len(data))) - set(lab))
+    present = sorted(lab)
+    nonroots = [h for h, n in hm.items() if n not in tree.roots]
+    roots = [h for h, n in hm.items() if n in tree.roots]
+    kinds = []
+    if present and hm:
+        kinds.append(("AddPoint", rng.choice(present), rng.choice(sorted(hm))))
+        kinds.append(("AddPoint", rng.choice(present), None))
+    if unused and nonroots and labels_contiguous(tree):
+        kinds.append(("NewClone", (rng.choice(nonroots),), (unused[0],)))
+    if unused and roots and labels_contiguous(tree):
+        r = rng.choice(roots)
+        kinds.append(("NewClone", (r, r), (unused[0],)))
+    return rng.choice(kinds) if kinds else None
 
 
 def history_job(args):
@@ -730,7 +769,7 @@ def roundtrip_job(args):
     case = make_case(seed, n_points, length)
     data, spec, hist = case["data"], case["spec"], case["hist"]
     rng = random.Random(seed + 1)
-    out = {"seed": seed, "n_points": n_points, "length": len(hist), "roundtrips": 0, "holes": 0, "outlier_only": 0, "suffix_edits": 0, "failure": None, "coq": [], "modes": {}}
+    out = {"seed": seed, "n_points": n_points, "asked_length": length, "length": len(hist), "roundtrips": 0, "holes": 0, "outlier_only": 0, "suffix_edits": 0, "failure": None, "coq": [], "modes": {}}
     tree = build_tree(spec, data)
     tol = 1e-8 * max(1, len(hist))
     points = [k for k in range(len(hist) + 1) if rng.random() < 0.3 or k == len(hist)]
